@@ -104,7 +104,12 @@ class Ctx:
         counts: dict[str, int] = {}
         for o in self.obligations:
             counts[o.rule] = counts.get(o.rule, 0) + 1
+        # a floor guards against a rule that passes because it no longer matches anything; a rule that says
+        # 'undecided' or reports a failure for some construct is not passing silently
+        loud = {o.rule for o in self.obligations if not o.ok or getattr(o, "undecided", False)}
         for rid, floor in self.floors.items():
+            if rid in loud:
+                continue
             if counts.get(rid, 0) < floor:
                 raise AnalysisError(
                     f"rule {rid} analysed {counts.get(rid, 0)} instance(s), below the confirmed floor {floor}: "
